@@ -538,6 +538,13 @@ def q_get_nowait(ip, args, kwargs, node):
     return _obj_or_wrap(s.elem, x)
 
 
+def q_put(ip, args, kwargs, node):
+    """await queue.put(x) on an unbounded asyncio.Queue: appends, never blocks"""
+    seq_append(ip, args, kwargs, node)
+    ip.last_builtin_awaitable = True
+    return VNone
+
+
 def q_qsize(ip, args, kwargs, node):
     return VInt(z3.Length(_seq(ip, args[0])))
 
@@ -677,7 +684,7 @@ def install(lib):  # noqa: F811
     meth = lib["__methods__"]
     for n, f in (("add", set_add), ("discard", set_discard), ("remove", set_remove), ("pop", set_pop)):
         meth[("set", n)] = VBuiltin("set." + n, f)
-    for n, f in (("put_nowait", q_put_nowait), ("get_nowait", q_get_nowait), ("qsize", q_qsize), ("empty", q_empty)):
+    for n, f in (("put", q_put), ("put_nowait", q_put_nowait), ("get_nowait", q_get_nowait), ("qsize", q_qsize), ("empty", q_empty)):
         meth[("seq", n)] = VBuiltin("Queue." + n, f)
     meth[("map", "setdefault")] = VBuiltin("dict.setdefault", m_setdefault)
     meth[("map", "update")] = VBuiltin("dict.update", m_update)
